@@ -456,7 +456,9 @@ std::vector<Token> get_replacement(
         break;
       }
       case Theo::Token::TEMP_VAL: {
-        std::string text = cand.text + ":" + cand.file + ":" +
+        // named after the definition (not the token), so that one #n is one
+        // variable even when the body spans several files
+        std::string text = cand.text + ":" + def.replacement[0].file + ":" +
                            std::to_string(def.replacement[0].line) + "_(M" +
                            std::to_string(pass) + ")";
         Token next = cand;
